@@ -1,5 +1,8 @@
 import ShuttleProofs.Lemmas.CondvarLTS
+import ShuttleProofs.Lemmas.CondvarSegment
 import ShuttleProofs.Lemmas.BarrierLTS
+import ShuttleProofs.Lemmas.OnceLTS
+import ShuttleProofs.Lemmas.ParkTask
 
 /-!
 # C05 — Condvar, Barrier, Once, park/unpark: waiters are released exactly when they should be
@@ -347,20 +350,41 @@ example : ∃ h g, CvReach h g ∧ ∃ p ∈ g.s.waiters, ∃ n ep, CvEv.notifyO
   refine ⟨_, g, hr, (1, .signal [(1, [7])]), by rw [hw]; simp, 0, 1, by simp [since], ?_⟩
   intro t'; simp
 
-/-- **mutex_released_while_waiting_and_reheld.**  `Condvar::wait` is, in this order: the drop of
+/-- **mutex_released_while_waiting_and_reheld.**  (a) `Condvar::wait` is, in this order: the drop of
 the guard (`Mutex.unlock`: a `release` of the mutex's semaphore behind its scheduling point, then
 `holder := none`), the registration stage (pure `CondvarState.register`, `block(false)`) in the
 same atomic segment, exactly one `switch`, the consuming stage (pure `CondvarState.wake`), and a
-full `Mutex.lock` whose result is the result of `wait`; the two middle stages are programs over
-the condvar's lens only (they never read or write the mutex). -/
-theorem mutex_released_while_waiting_and_reheld {U : Type} (L : Lens U CondvarState) (M : Lens U MutexState) :
-    Condvar.wait L M =
-      (do let me ← K.me
-          Mutex.unlock M
-          Condvar.registerStage L me
-          K.switch
-          Condvar.wakeStage L me
-          Mutex.lock M) := rfl
+full `Mutex.lock` whose result is the result of `wait`.  (b) Executed by the kernel
+(`runSegment`) from any state in which the caller is not yet registered, the registration stage
+up to that `switch` writes the shared state only through the condvar's lens — so for a mutex
+behind an independent lens the mutex state (just released by the guard's drop) is untouched:
+the mutex stays released while the task waits — and leaves the caller blocked without spurious
+wake-ups, with the consuming stage and the `Mutex.lock` as its continuation. -/
+theorem mutex_released_while_waiting_and_reheld :
+    (∀ {U : Type} (L : Lens U CondvarState) (M : Lens U MutexState),
+      Condvar.wait L M =
+        (do let me ← K.me
+            Mutex.unlock M
+            Condvar.registerStage L me
+            K.switch
+            Condvar.wakeStage L me
+            Mutex.lock M)) ∧
+    (∀ (P : Program) {σ : Type} (S : Scheduler σ) (L : Lens P.U CondvarState) (M : Lens P.U MutexState)
+      (me : Nat) (st : ExecState P σ) (tk : Task) (s' : CondvarState) (fuel : Nat)
+      (kont : LockRes → Prog P.U Unit),
+      st.k.getTask? me = some tk → tk.finished = false → (L.get st.u).register me = .ok s' →
+      (∀ x u, M.get (L.set x u) = M.get u) →
+      ∃ st', runSegment S me (fuel + 6) st
+          (do Condvar.registerStage L me; K.switch;
+              (do Condvar.wakeStage L me; let r ← Mutex.lock M; kont r)) = .atSwitch st' ∧
+        M.get st'.u = M.get st.u ∧ L.get st'.u = L.get (L.set s' st.u) ∧
+        st'.k.getTask? me = (st.k.setTask me { tk with state := .blocked false }).getTask? me ∧
+        st'.conts = st.conts.set me (do Condvar.wakeStage L me; let r ← Mutex.lock M; kont r)) := by
+  refine ⟨fun L M => rfl, ?_⟩
+  intro P σ S L M me st tk s' fuel kont hk hf hr hind
+  refine ⟨_, registerStage_segment P S L me st tk hk hf s' hr _ fuel, hind _ _, rfl, rfl, rfl⟩
+
+example : (({} : CondvarState).register 3) = .ok { waiters := [(3, .waiting)] } := rfl
 
 /-! ## Barrier -/
 
@@ -568,5 +592,228 @@ example : ∃ h g, BarReach 1 h g ∧ h = [.ret 2 1 true, .arrive 2 1 true, .ret
   ⟨_, _, barRun_reach .init (cmds := [.arrive 1 [1], .arrive 2 [0, 1]]) rfl, rfl⟩
 
 end Barrier
+
+/-! ## Once -/
+
+section Once
+open ShuttleModel.OnceState
+
+/-- `1` and `2` race on a fresh cell, `2` wins the lock and runs its closure, `3` asks
+`is_completed` in the middle (false), `2` completes and returns, `1` gets the lock, finds the flag
+set, returns without running; a late `call_once` by `3` returns at once -/
+theorem exOnceReach : ∃ g, OnceReach
+    [.enter 3 true, .ret 1 false, .acquired 1 true, .ret 2 true, .initDone 2, .isCompleted 3 false,
+     .acquired 2 false, .enter 2 false, .enter 1 false] g ∧ g.s.complete = some [0, 0, 1] ∧
+    g.waiting = [] ∧ g.holder = none := by
+  have r1 := OnceReach.step .init (OnceStep.enterRace (t := 1) (by simp [OnceG.busy, onceInit]) rfl)
+  have r2 := OnceReach.step r1 (OnceStep.enterRace (t := 2) (by simp [OnceG.busy, onceInit]) rfl)
+  have r3 := OnceReach.step r2 (OnceStep.acquire (t := 2) (by simp [onceInit]) rfl)
+  have r4 := OnceReach.step r3 (OnceStep.isCompleted (t := 3))
+  have r5 := OnceReach.step r4 (OnceStep.initDone (t := 2) (c := [0, 0, 1]) rfl)
+  have r6 := OnceReach.step r5 (OnceStep.unlockDone (t := 2) rfl)
+  have r7 := OnceReach.step r6 (OnceStep.acquire (t := 1) (by simp [onceInit]) rfl)
+  have r8 := OnceReach.step r7 (OnceStep.unlockSkip (t := 1) rfl)
+  have r9 := OnceReach.step r8 (OnceStep.enterDone (t := 3) (c := [0, 0, 1]) (by simp [OnceG.busy, onceInit]) rfl)
+  exact ⟨_, r9, rfl, rfl, rfl⟩
+
+/-- **exactly_one_initializer.**  Given mutual exclusion of the internal mutex (built into
+`OnceStep.acquire`; property C04), in every reachable state of a `Once` under any number of racing
+`call_once`: at most one caller has started its initializer in the whole execution; completion is
+permanent; and once the cell is complete every later `call_once` skips the initializer — a new
+call returns from its first segment, and a racer that already holds the `Rc<Mutex>` finds the flag
+set when it gets the lock. -/
+theorem exactly_one_initializer {h : List OnceEv} {g : OnceG} (hr : OnceReach h g) :
+    initRuns h ≤ 1 ∧
+    (∀ e g', OnceStep g e g' → g.s.complete.isSome = true → g'.s.complete.isSome = true) ∧
+    (g.s.complete.isSome = true →
+      (∀ t g', ¬ OnceStep g (.enter t false) g') ∧
+      (∀ t f g', OnceStep g (.acquired t f) g' → f = true ∧ initRuns (.acquired t f :: h) = initRuns h)) := by
+  have I := onceReach_inv hr
+  refine ⟨?_, ?_, ?_⟩
+  · rcases I.runs with ⟨h0, _⟩ | ⟨h1, _⟩ <;> omega
+  · intro e g' hs hc
+    have I' := onceInv_step I hs
+    obtain ⟨t, ht⟩ := I.done_iff.1 hc
+    exact I'.done_iff.2 ⟨t, List.mem_cons_of_mem _ ht⟩
+  · intro hc
+    constructor
+    · intro t g' hs
+      cases hs with
+      | enterRace _ hn => simp only [enter_snd] at hn; rw [hn] at hc; cases hc
+    · intro t f g' hs
+      generalize hev : OnceEv.acquired t f = ev at hs
+      cases hs with
+      | acquire _ _ =>
+        injection hev with _ hf
+        have hfl : (g.s.flag != 0) = true := by simpa using I.flag_iff.2 hc
+        rw [hfl] at hf
+        subst hf
+        exact ⟨rfl, by rw [initRuns_cons]; simp [hfl]⟩
+      | _ => cases hev
+
+example : ∃ h g, OnceReach h g ∧ initRuns h = 1 ∧ g.s.complete.isSome = true :=
+  let ⟨g, hr, hc, _, _⟩ := exOnceReach
+  ⟨_, g, hr, by decide, by rw [hc]; rfl⟩
+
+/-- **call_once_returns_after_completion.**  Whatever the path (already complete at entry; lost the
+race and found the flag set; ran the initializer itself), when a `call_once` returns the cell is
+`Complete`, some caller's initializer has run to its end before that moment, and exactly one
+initializer was ever started. -/
+theorem call_once_returns_after_completion {h : List OnceEv} {g : OnceG} (hr : OnceReach h g)
+    {e : OnceEv} {g' : OnceG} (hs : OnceStep g e g')
+    (hret : (∃ t, e = .enter t true) ∨ (∃ t ran, e = .ret t ran)) :
+    g'.s.complete.isSome = true ∧ (∃ t0, OnceEv.initDone t0 ∈ h) ∧ initRuns (e :: h) = 1 := by
+  have I := onceReach_inv hr
+  have I' := onceInv_step I hs
+  have hc : g.s.complete.isSome = true := by
+    cases hs with
+    | enterDone _ hd => simp only [enter_snd] at hd; simp [hd]
+    | enterRace _ _ => rcases hret with ⟨t, ht⟩ | ⟨t, r, ht⟩ <;> cases ht
+    | acquire _ _ => rcases hret with ⟨t, ht⟩ | ⟨t, r, ht⟩ <;> cases ht
+    | initDone _ => rcases hret with ⟨t, ht⟩ | ⟨t, r, ht⟩ <;> cases ht
+    | unlockSkip hh => exact (I.phase _ _ hh).2 (by decide)
+    | unlockDone hh => exact (I.phase _ _ hh).2 (by decide)
+    | isCompleted => rcases hret with ⟨t, ht⟩ | ⟨t, r, ht⟩ <;> cases ht
+  have hc' := (exactly_one_initializer hr).2.1 e g' hs hc
+  refine ⟨hc', I.done_iff.1 hc, ?_⟩
+  rcases I'.runs with ⟨_, h0, _⟩ | ⟨h1, _⟩
+  · rw [h0] at hc'; cases hc'
+  · exact h1
+
+example : ∃ h g e g', OnceReach h g ∧ OnceStep g e g' ∧ ∃ t, e = .enter t true := by
+  obtain ⟨g, hr, hc, hw, hh⟩ := exOnceReach
+  exact ⟨_, g, _, _, hr, OnceStep.enterDone (t := 9) (c := [0, 0, 1])
+    (by simp [OnceG.busy, hw, hh]) (by rw [enter_snd, hc]; exact rfl), 9, rfl⟩
+
+/-- **is_completed_iff_complete.**  `is_completed()` answers `true` exactly when the cell is
+`Complete`, i.e. exactly when some initializer has already run to its end; it never changes the
+state. -/
+theorem is_completed_iff_complete {h : List OnceEv} {g : OnceG} (hr : OnceReach h g) :
+    (g.s.isCompleted.isSome = true ↔ ∃ t0, OnceEv.initDone t0 ∈ h) ∧
+    (∀ t res g', OnceStep g (.isCompleted t res) g' →
+        g' = g ∧ (res = true ↔ ∃ t0, OnceEv.initDone t0 ∈ h)) := by
+  have I := onceReach_inv hr
+  have h1 : g.s.isCompleted.isSome = true ↔ ∃ t0, OnceEv.initDone t0 ∈ h := I.done_iff
+  refine ⟨h1, ?_⟩
+  intro t res g' hs
+  generalize hev : OnceEv.isCompleted t res = ev at hs
+  cases hs with
+  | isCompleted =>
+    injection hev with _ hres
+    subst hres
+    exact ⟨rfl, h1⟩
+  | _ => cases hev
+
+example : ∃ h g, OnceReach h g ∧ ∃ t0, OnceEv.initDone t0 ∈ h :=
+  let ⟨g, hr, _, _, _⟩ := exOnceReach
+  ⟨_, g, hr, 2, by simp⟩
+
+end Once
+
+/-! ## park / unpark -/
+
+section Park
+
+/-- **token_is_boolean.**  Tokens do not accumulate: on a running, not parked task, two `unpark`s
+followed by two `park`s — the first `park` consumes the token and does not block, the second one
+blocks (spuriously wakeable) and marks the task parked. -/
+theorem token_is_boolean (t : Task) (hr : t.state = .runnable) (hb : t.blockedInPark = false) :
+    ∃ t1 t2 t3 t4, t.unpark = .ok t1 ∧ t1.unpark = .ok t2 ∧ t2.park = .ok (false, t3) ∧
+      t3.park = .ok (true, t4) ∧ t2.tokenAvail = true ∧ t3.tokenAvail = false ∧
+      t4.state = .blocked true ∧ t4.blockedInPark = true ∧ t4.tokenAvail = false := by
+  refine ⟨{ t with tokenAvail := true }, { t with tokenAvail := true }, { t with tokenAvail := false },
+    { t with tokenAvail := false, blockedInPark := true, state := .blocked true }, ?_, ?_, ?_, ?_, rfl, rfl, rfl, rfl, rfl⟩
+  · simp [Task.unpark, hb]
+  · simp [Task.unpark, hb]
+  · simp [Task.park, Task.isBlocked, hb, hr]
+  · simp [Task.park, Task.isBlocked, Task.block, Task.finished, hb, hr]
+
+example : ∃ t : Task, t.state = .runnable ∧ t.blockedInPark = false := ⟨{}, rfl, rfl⟩
+
+/-- **park_consumes_or_blocks.**  `park` on the running, not parked task: a pending token is
+consumed and the call does not block; without a token the task becomes parked and blocked with
+`allow_spurious_wakeups = true` (so the scheduler may wake it spuriously). -/
+theorem park_consumes_or_blocks (t : Task) (hr : t.state = .runnable) (hb : t.blockedInPark = false) :
+    (t.tokenAvail = true → t.park = .ok (false, { t with tokenAvail := false })) ∧
+    (t.tokenAvail = false →
+      t.park = .ok (true, { t with blockedInPark := true, state := .blocked true }) ∧
+      ({ t with blockedInPark := true, state := .blocked true } : Task).canSpuriouslyWakeup = true) := by
+  constructor
+  · intro ht
+    simp [Task.park, Task.isBlocked, hb, hr, ht]
+  · intro ht
+    refine ⟨?_, rfl⟩
+    simp [Task.park, Task.isBlocked, Task.block, Task.finished, hb, hr, ht]
+
+example : ∃ t : Task, t.state = .runnable ∧ t.blockedInPark = false ∧ t.tokenAvail = true :=
+  ⟨{ tokenAvail := true }, rfl, rfl, rfl⟩
+
+/-- **unpark_unblocks_or_sets_token.**  `unpark` of a parked task (which, by `park_invariant`, is
+blocked-spuriously-wakeable and has no token) makes it runnable and not parked — the wake-up is
+never lost; `unpark` of a task that is not parked sets the (boolean) token. -/
+theorem unpark_unblocks_or_sets_token (t : Task) :
+    (t.blockedInPark = true → t.state = .blocked true → t.tokenAvail = false →
+      t.unpark = .ok { t with state := .runnable, blockedInPark := false }) ∧
+    (t.blockedInPark = false → t.unpark = .ok { t with tokenAvail := true }) := by
+  constructor
+  · intro hb hs ht
+    simp [Task.unpark, Task.isBlocked, Task.canSpuriouslyWakeup, Task.unblock, Task.finished, hb, hs, ht]
+  · intro hb
+    simp [Task.unpark, hb]
+
+/-- **blocked_in_park_cleared_on_any_unblock.**  Every `Task::unblock` — by `unpark`, by another
+primitive, or by the scheduler's spurious wake-up, which calls the same function — clears
+`blocked_in_park` and makes the task runnable; `wake` of a sleeping task does so too. -/
+theorem blocked_in_park_cleared_on_any_unblock (t t' : Task) :
+    (t.unblock = .ok t' → t'.blockedInPark = false ∧ t'.state = .runnable ∧ t'.tokenAvail = t.tokenAvail) ∧
+    (t.sleeping = true → t.wake = .ok t' → t'.blockedInPark = false ∧ t'.state = .runnable) := by
+  constructor
+  · intro h
+    simp only [Task.unblock] at h
+    split at h
+    · cases h
+    · simp only [Except.ok.injEq] at h; subst h; exact ⟨rfl, rfl, rfl⟩
+  · intro hs h
+    simp only [Task.wake, Task.unblock] at h
+    have : ({ t with woken := true } : Task).sleeping = true := hs
+    rw [if_pos this] at h
+    split at h
+    · cases h
+    · simp only [Except.ok.injEq] at h; subst h; exact ⟨rfl, rfl⟩
+
+example : ∃ t t' : Task, t.blockedInPark = true ∧ t.unblock = .ok t' :=
+  ⟨{ blockedInPark := true, state := .blocked true }, _, rfl, rfl⟩
+
+/-- **park_invariant.**  Over all sequences of operations on a task (its own `park` / `block` /
+`sleep_unless_woken` / `finish` while it runs; `unpark`, `unblock`, `wake`, external `block(false)`
+at any time): never `token_available ∧ blocked_in_park`; and, as long as no *external* `block(false)`
+hits it (the model only issues that for condvar / semaphore waiters), a parked task is blocked with
+spurious wake-ups allowed and has no token — so the next `unpark` succeeds and makes it runnable. -/
+theorem park_invariant {ops : List TaskOp} {t : Task} (hr : TReach ops t) :
+    ¬ (t.tokenAvail = true ∧ t.blockedInPark = true) ∧
+    (TaskOp.blockExt ∉ ops → t.blockedInPark = true →
+      t.state = .blocked true ∧ t.tokenAvail = false ∧
+      t.unpark = .ok { t with state := .runnable, blockedInPark := false }) := by
+  have h1 := treach_tokenInv hr
+  refine ⟨h1, ?_⟩
+  intro hno hb
+  have hs := treach_parkedInv hr hno hb
+  have ht : t.tokenAvail = false := by
+    cases hx : t.tokenAvail with
+    | false => rfl
+    | true => exact absurd ⟨hx, hb⟩ h1
+  exact ⟨hs, ht, (unpark_unblocks_or_sets_token t).1 hb hs ht⟩
+
+example : ∃ ops t, TReach ops t ∧ TaskOp.blockExt ∉ ops ∧ t.blockedInPark = true :=
+  ⟨[.park, .park, .unpark, .unpark], { blockedInPark := true, state := .blocked true },
+    TReach.step (t := { tokenAvail := false }) (op := .park)
+      (TReach.step (t := { tokenAvail := true }) (op := .park)
+        (TReach.step (t := { tokenAvail := true }) (op := .unpark)
+          (TReach.step (t := {}) (op := .unpark) .init ⟨rfl, by decide⟩) ⟨rfl, by decide⟩)
+        ⟨rfl, fun _ => rfl⟩)
+      ⟨rfl, fun _ => rfl⟩,
+    by decide, rfl⟩
+
+end Park
 
 end ShuttleProofs.C05
